@@ -47,7 +47,14 @@ type Contract struct {
 	Entry     bool
 	Panics    bool // function may panic by design (documented); excluded
 	Views     []string
+	Ghosts    []GhostRes // ghost results: named values of locals at return, existentially quantified for callers
 	used      bool
+}
+
+type GhostRes struct {
+	Name string
+	Type string
+	Expr Clause
 }
 
 type SpecFunc struct {
@@ -347,6 +354,16 @@ func (w *World) parseContractLines(lines []string, locs []string, pkgRel string,
 			w.lemmas = append(w.lemmas, lm)
 			cur = nil
 		case "ghost":
+			// inside a func block: ghost <name> <type> = <expr over the function's locals at return>
+			if cur != nil && len(f) >= 5 && f[1] != "field" && f[3] == "=" {
+				ex := strings.TrimSpace(rest[strings.Index(rest, "=")+1:])
+				cl, err := mkClause(ex, loc)
+				if err != nil {
+					return err
+				}
+				cur.Ghosts = append(cur.Ghosts, GhostRes{Name: f[1], Type: f[2], Expr: cl})
+				continue
+			}
 			// ghost field T.name type
 			if len(f) >= 4 && f[1] == "field" {
 				p := strings.SplitN(f[2], ".", 2)
